@@ -129,8 +129,8 @@ struct Gen{
   void query(){
     if(r.chance(0.06)){ int e=pick(p_alive); if(e>=0 && g[e].dim==0 && !g[e].mf){ Json& o=add("getmatrix"); o["a"]=e; o["b"]=e; return; } }
     int a=pick(p_usable); if(a<0){ construct(); return; }
-    static const char* q[]={"eq","dot","getcomps","getmatrix","real","imag","transpose","rotate","rotate_b","utransform_m","utransform_v","eigen","prep_evolve","print","rotate_m","weighted","dot_expr"};
-    int k=(int)r.weighted({10,8,8,6,5,5,6,6,5,6,6,5,10,4,5,3,5});
+    static const char* q[]={"eq","dot","getcomps","getmatrix","real","imag","transpose","rotate","rotate_b","utransform_m","utransform_v","eigen","prep_evolve","print","rotate_m","weighted","dot_expr","const_ops"};
+    int k=(int)r.weighted({10,8,8,6,5,5,6,6,5,6,6,5,10,4,5,3,5,5});
     Json& o=add(q[k]); o["a"]=a;
     int b=pick_usable_dim(g[a].dim); if(b<0) b=a;
     if(k==0) b=pick(p_alive);
